@@ -81,7 +81,10 @@ def gen_spec(seed, index, tier):
         if calc == "vasp" and rng.random() < 0.3:
             faults = ["relaxation"]
     return dict(seed=seed, world=w.spec, calc=calc, faults=faults, fault_seed=rng.getrandbits(32), with_born=rng.random() < 0.6,
-                distance=rng.choice([None, 0.03]), is_plusminus=rng.choice(["auto", True]))
+                distance=rng.choice([None, 0.03]), is_plusminus=rng.choice(["auto", True]),
+                # a quarter of the runs: random displacements of all atoms (type-2 dataset).  No force-constant solver for
+                # them is installed, so these runs end with the FORCE_SETS built from the delivery
+                random_displacements=(rng.randint(2, 4) if rng.random() < 0.25 else 0))
 
 
 # ------------------------------------------------------------------ helpers
@@ -146,7 +149,10 @@ def child_displace(args):
         ph = Phonopy(cell, supercell_matrix=w.supercell_matrix, primitive_matrix=w.primitive_matrix, factor=units["factor"], calculator=calc, log_level=0)
         dist = spec["distance"]
         dist = get_default_displacement_distance(calc) if dist is None else dist / L
-        ph.generate_displacements(distance=dist, is_plusminus=spec["is_plusminus"])
+        if spec.get("random_displacements"):
+            ph.generate_displacements(distance=dist, number_of_snapshots=spec["random_displacements"], random_seed=spec["fault_seed"] % 100000)
+        else:
+            ph.generate_displacements(distance=dist, is_plusminus=spec["is_plusminus"])
         ph.save("phonopy_disp.yaml")
         sc = ph.supercell
         out.update(
@@ -232,7 +238,10 @@ def child_displace(args):
         dist = get_default_displacement_distance(calc)
     else:
         dist = dist / L
-    ph.generate_displacements(distance=dist, is_plusminus=spec["is_plusminus"])
+    if spec.get("random_displacements"):
+        ph.generate_displacements(distance=dist, number_of_snapshots=spec["random_displacements"], random_seed=spec["fault_seed"] % 100000)
+    else:
+        ph.generate_displacements(distance=dist, is_plusminus=spec["is_plusminus"])
     before = set(_listing())
     add = {"supercell_matrix": ph.supercell_matrix}
     with contextlib.redirect_stdout(io.StringIO()):
@@ -581,7 +590,10 @@ def execute(spec):
                         # ---------------- delivery with faults
                         frng = core.rng_of(spec["fault_seed"], "delivery")
                         files = list(outputs)
-                        for k in spec["faults"]:
+                        # type-2 datasets: phonopy accepts any number of output files by design (the first N displacements are
+                        # used), so only the fault that is wrong whatever the count - a truncated output - is injected there
+                        fault_list = [k for k in spec["faults"] if k == "truncate"] if spec.get("random_displacements") else spec["faults"]
+                        for k in fault_list:
                             if k == "permute" and len(files) > 1:
                                 new = files[:]
                                 frng.shuffle(new)
@@ -676,13 +688,27 @@ def execute(spec):
 
                             ds = parse_FORCE_SETS(natom=p1["natom"], filename="FORCE_SETS")
                             errs = []
-                            for dsp in ds["first_atoms"]:
-                                u = np.zeros((p1["natom"], 3))
-                                u[dsp["number"]] = np.array(dsp["displacement"]) * L
-                                Fexp = -np.einsum("ijab,jb->ia", p1["fc_model"], u) / Funit
-                                errs.append(float(np.max(np.abs(Fexp - np.array(dsp["forces"])))))
+                            if "first_atoms" in ds:
+                                n_sets = len(ds["first_atoms"])
+                                for dsp in ds["first_atoms"]:
+                                    u = np.zeros((p1["natom"], 3))
+                                    u[dsp["number"]] = np.array(dsp["displacement"]) * L
+                                    Fexp = -np.einsum("ijab,jb->ia", p1["fc_model"], u) / Funit
+                                    errs.append(float(np.max(np.abs(Fexp - np.array(dsp["forces"])))))
+                            else:
+                                # type 2: every row pairs the displacements of one supercell with its forces; the displacements are
+                                # printed with 8 decimals, so the expected forces are taken at the printed displacements
+                                n_sets = len(ds["displacements"])
+                                for u_, f_ in zip(np.array(ds["displacements"]), np.array(ds["forces"])):
+                                    Fexp = -np.einsum("ijab,jb->ia", p1["fc_model"], u_ * L) / Funit
+                                    errs.append(float(np.max(np.abs(Fexp - f_))))
+                                intended = np.array(p1["dataset"]["displacements"]) if "displacements" in p1["dataset"] else None
+                                if intended is not None and n_sets == len(intended) and np.max(np.abs(intended - np.array(ds["displacements"]))) > 0.6e-8:
+                                    errs.append(1.0)  # rows paired with other supercells' displacements
                             fscale = max(1e-12, float(np.max(np.abs(p1["fc_model"]))) * 0.01 / Funit)
-                            correct = len(ds["first_atoms"]) == p1["ndisp"] and max(errs) < 1e-6 * max(1.0, fscale / 1e-3) + 2e-9
+                            # (type 2 prints forces with 8 decimals, and the harmonic model is evaluated at 8-decimal displacements)
+                            ftol = (1e-6 * max(1.0, fscale / 1e-3) + 2e-9) if "first_atoms" in ds else (1e-6 * max(1.0, fscale / 1e-3) + 2e-8 + 1e-8 * float(np.max(np.abs(p1["fc_model"]))) * L / Funit)
+                            correct = n_sets == p1["ndisp"] and max(errs) < ftol
                             probes["force_sets_max_error"] = max(errs)
                         trunc = [k for k in fired if k.startswith("truncate")]
                         must_refuse = bool(trunc) or len(files) != p1["ndisp"]
@@ -711,7 +737,9 @@ def execute(spec):
                             elif not written:
                                 probes["refusal_path_taken"] = probes.get("refusal_path_taken", 0) + 1
                         # ---------------- restarted reader with calculator=K
-                        if written and correct:
+                        if written and correct and spec.get("random_displacements"):
+                            probes["type2_force_sets_built:%s" % calc] = 1
+                        if written and correct and not spec.get("random_displacements"):
                             os.chdir(cwd)
                             p3 = sub(child_load, (spec, path))
                             os.chdir(path)
